@@ -115,32 +115,36 @@ Section WC.
   Definition names_object (dp rp : list N) : Prop := paired path dp rp \/ dp = pjoin rootdir rp.
 
   (* the object at [rp] was checked against [eo] (an entry, or none for a file nobody lists); a failing check was reported *)
+  (* ... at the system path [dp]: verify_path answered (it did not end with an error), and a negative answer was reported *)
+  Definition presented_at (dp rp : list N) (eo : option entry) (log : list call) : Prop :=
+    exists ok diff, Verify.verify_path L w dp eo (vc_dev c) (vc_lm c) = Ok (ok, diff) /\ (ok = false -> In (rp, diff) log).
   Definition presented (rp : list N) (eo : option entry) (log : list call) : Prop :=
-    exists dp ok diff, names_object dp rp /\ Verify.verify_path L w dp eo (vc_dev c) (vc_lm c) = Ok (ok, diff) /\
-                       (ok = false -> In (rp, diff) log).
+    exists dp, names_object dp rp /\ presented_at dp rp eo log.
 
+  Lemma presented_at_mono dp rp eo log log' : pre log log' -> presented_at dp rp eo log -> presented_at dp rp eo log'.
+  Proof. intros Hp [ok [diff [H2 H3]]]. exists ok, diff. split; [exact H2|]. intros E. eapply pre_in; [exact Hp|apply H3; exact E]. Qed.
   Lemma presented_mono rp eo log log' : pre log log' -> presented rp eo log -> presented rp eo log'.
-  Proof. intros Hp [dp [ok [diff [H1 [H2 H3]]]]]. exists dp, ok, diff. split; [exact H1|split; [exact H2|]]. intros E. eapply pre_in; [exact Hp|apply H3; exact E]. Qed.
+  Proof. intros Hp [dp [H1 H2]]. exists dp. split; [exact H1|eapply presented_at_mono; eassumption]. Qed.
 
-  Lemma verify_one_presented dp rp eo log b log' : names_object dp rp ->
-    verify_one L w c dp rp eo log = Ok (b, log') -> pre log log' /\ presented rp eo log'.
+  Lemma verify_one_presented dp rp eo log b log' :
+    verify_one L w c dp rp eo log = Ok (b, log') -> pre log log' /\ presented_at dp rp eo log'.
   Proof.
-    intros Hn. unfold verify_one. destruct (Verify.verify_path L w dp eo (vc_dev c) (vc_lm c)) as [[ok diff]|] eqn:E; cbn [bind]; [|discriminate].
+    unfold verify_one. destruct (Verify.verify_path L w dp eo (vc_dev c) (vc_lm c)) as [[ok diff]|] eqn:E; cbn [bind]; [|discriminate].
     destruct ok.
-    - intros H. inversion H; subst. split; [apply pre_refl|]. exists dp, true, diff. split; [exact Hn|split; [exact E|discriminate]].
-    - assert (P : pre log (log ++ [(rp, diff)]) /\ presented rp eo (log ++ [(rp, diff)])).
-      { split; [exists [(rp, diff)]; reflexivity|]. exists dp, false, diff. split; [exact Hn|split; [exact E|]]. intros _. apply in_or_app. right. left. reflexivity. }
+    - intros H. inversion H; subst. split; [apply pre_refl|]. exists true, diff. split; [exact E|discriminate].
+    - assert (P : pre log (log ++ [(rp, diff)]) /\ presented_at dp rp eo (log ++ [(rp, diff)])).
+      { split; [exists [(rp, diff)]; reflexivity|]. exists false, diff. split; [exact E|]. intros _. apply in_or_app. right. left. reflexivity. }
       destruct (apply_policy (vc_pol c) rp); [| |discriminate]; intros H; inversion H; subst; exact P.
   Qed.
 
   (* an IGNORE entry always verifies *)
   Lemma ignore_presented dp rp p log : names_object dp rp -> presented rp (Some (EIgn p)) log.
-  Proof. intros Hn. exists dp, true, []. split; [exact Hn|split; [apply verify_path_ignore|discriminate]]. Qed.
+  Proof. intros Hn. exists dp. split; [exact Hn|]. exists true, []. split; [apply verify_path_ignore|discriminate]. Qed.
 
   (* items verified in order: the log grows, every item is presented *)
   Lemma verify_items_presented dp rp : paired path dp rp -> forall its r lg b lg',
     verify_items L w c dp rp its (Ok (r, lg)) = Ok (b, lg') ->
-    pre lg lg' /\ forall it, In it its -> presented (pjoin rp (fst it)) (snd it) lg'.
+    pre lg lg' /\ forall it, In it its -> presented_at (pjoin dp (fst it)) (pjoin rp (fst it)) (snd it) lg'.
   Proof.
     intros Hp. induction its as [|it its IH]; intros r lg b lg' H.
     - cbn in H. inversion H; subst. split; [apply pre_refl|intros it []].
@@ -148,9 +152,9 @@ Section WC.
       destruct (verify_one L w c (pjoin dp (fst it)) (pjoin rp (fst it)) (snd it) lg) as [[b0 lg0]|] eqn:E; cbn [bind] in H.
       2:{ exfalso. fold (verify_items L w c dp rp its (Err e)) in H. rewrite verify_items_err in H. discriminate. }
       fold (verify_items L w c dp rp its (Ok (r && b0, lg0))) in H.
-      destruct (verify_one_presented _ _ _ _ _ _ (or_introl (paired_step path dp rp (fst it) Hp)) E) as [P1 P2].
+      destruct (verify_one_presented _ _ _ _ _ _ E) as [P1 P2].
       destruct (IH _ _ _ _ H) as [Q1 Q2]. split; [eapply pre_trans; eassumption|].
-      intros it' [<-|Hin]; [eapply presented_mono; eassumption|apply Q2; exact Hin].
+      intros it' [<-|Hin]; [eapply presented_at_mono; eassumption|apply Q2; exact Hin].
   Qed.
 
   (* ---- the entry dictionary: what remains of it, what was presented ------------------------------------------------ *)
@@ -229,11 +233,19 @@ Section WC.
 
   (* every listed visible file of the directory (dp, rel) was presented, with an entry that ed0 records for rel, or none *)
   Definition files_presented (dp rel : list N) (log : list call) : Prop :=
+    (* the directory itself could be listed and inspected, on the expected device *)
+    (exists ents st, p_scandir w dp = Ok ents /\ p_stat w dp = Ok st /\ (forall d, vc_dev c = Some d -> st_dev st = d)) /\
     forall ents f, p_scandir w dp = Ok ents -> In f (map fst (filter (fun x => negb (snd x)) ents)) ->
       visible (vc_top c) rel f = true ->
-      exists eo, presented (pjoin rel f) eo log /\ (eo = None \/ exists e dd, eo = Some e /\ In (rel, dd) ed0 /\ In (f, e) dd).
+      exists eo, presented_at (pjoin dp f) (pjoin rel f) eo log /\ (eo = None \/ exists e dd, eo = Some e /\ In (rel, dd) ed0 /\ In (f, e) dd).
 
   Definition sub_ed0 (ed : edict) : Prop := forall x, In x ed -> In x ed0.
+
+  Lemma files_presented_mono dp rel log log' : pre log log' -> files_presented dp rel log -> files_presented dp rel log'.
+  Proof.
+    intros Hp [H0 H1]. split; [exact H0|]. intros ents f A1 A2 A3. destruct (H1 ents f A1 A2 A3) as [eo [B1 B2]].
+    exists eo. split; [eapply presented_at_mono; eassumption|exact B2].
+  Qed.
 
   Lemma walk_complete fuel : forall dp rel ids ed ret log ids' ed' ret' log',
     paired path dp rel -> sub_ed0 ed ->
@@ -244,8 +256,8 @@ Section WC.
     induction fuel as [|f IH]; intros dp rel ids ed ret log ids' ed' ret' log' Hp Hsub H; [discriminate|].
     cbn [walk_verify] in H.
     destruct (p_scandir w dp) as [ents|] eqn:Es; cbn [bind] in H; [|discriminate].
-    destruct (p_stat w dp) as [dst|]; cbn [bind] in H; [|discriminate].
-    destruct (match vc_dev c with Some d => negb (st_dev dst =? d) | None => false end); [discriminate|].
+    destruct (p_stat w dp) as [dst|] eqn:Est; cbn [bind] in H; [|discriminate].
+    destruct (match vc_dev c with Some d => negb (st_dev dst =? d) | None => false end) eqn:Edev; [discriminate|].
     destruct (existsb _ _); [discriminate|].
     set (dirdict := match assoc rel ed with Some d => d | None => [] end) in *.
     destruct (fold_left _ (map fst (filter snd ents)) ([], dirdict)) as [keep dirdict1] eqn:Ek.
@@ -257,7 +269,7 @@ Section WC.
     (* the dictionary of this directory: everything in it has been presented *)
     assert (DD : dd_presented rel dirdict log1).
     { intros n e Hin. destruct (K4 _ _ Hin) as [H1|[p ->]].
-      - apply (P2 (n, Some e)). apply C1. exact H1.
+      - exists (pjoin dp n). split; [left; apply paired_step; exact Hp|]. apply (P2 (n, Some e)). apply C1. exact H1.
       - apply (ignore_presented (pjoin dp n)). left. apply paired_step. exact Hp. }
     assert (DSUB : forall dd, assoc rel ed = Some dd -> In (rel, dd) ed0) by (intros dd Ha; apply Hsub; apply assoc_in; exact Ha).
     assert (CONS1 : consumed ed (dict_del rel ed) log1).
@@ -266,7 +278,10 @@ Section WC.
       unfold dirdict in DD. rewrite H1 in DD. exact DD. }
     (* the files of this directory *)
     assert (FP : files_presented dp rel log1).
-    { intros ents' f' Es' Hin Hv. rewrite Es in Es'. inversion Es'; subst ents'.
+    { split.
+      { exists ents, dst. split; [exact Es|split; [exact Est|]]. intros d Hd. rewrite Hd in Edev.
+        apply negb_false_iff, N.eqb_eq in Edev. exact Edev. }
+      intros ents' f' Es' Hin Hv. rewrite Es in Es'. inversion Es'; subst ents'.
       destruct (C2 f' Hin Hv) as [eo [I1 I2]]. exists eo. split; [apply (P2 (f', eo)); exact I1|].
       destruct I2 as [->|[e [-> I2]]]; [left; reflexivity|right].
       apply K3 in I2. unfold dirdict in I2. destruct (assoc rel ed) as [dd|] eqn:Ea; [|destruct I2].
@@ -288,15 +303,13 @@ Section WC.
         destruct (IHd _ _ _ _ _ _ _ _ Hs2 Hd) as [V1 [V2 V3]].
         split; [eapply pre_trans; eassumption|split; [eapply consumed_trans; eassumption|]].
         intros d' [<-|Hin] dp' rel' Hr.
-        + intros ents' f' A1 A2 A3. destruct (W3 _ _ Hr ents' f' A1 A2 A3) as [eo [B1 B2]].
-          exists eo. split; [eapply presented_mono; eassumption|exact B2].
+        + eapply files_presented_mono; [exact V1|apply W3; exact Hr].
         + eapply V3; eassumption. }
     assert (Hs1 : sub_ed0 (dict_del rel ed)) by (intros x Hx; apply Hsub; eapply in_dict_del_sub; exact Hx).
     destruct (G _ _ _ _ _ _ _ _ _ Hs1 H) as [G1 [G2 G3]].
     split; [eapply pre_trans; eassumption|split; [eapply consumed_trans; eassumption|]].
     intros dp' rel' Hr. inversion Hr as [|? ? ents' d ? ? R1 R2 R3 R4 R5]; subst.
-    - intros ents' f' A1 A2 A3. destruct (FP ents' f' A1 A2 A3) as [eo [B1 B2]].
-      exists eo. split; [eapply presented_mono; eassumption|exact B2].
+    - eapply files_presented_mono; [exact G1|exact FP].
     - rewrite Es in R1. inversion R1; subst ents'. eapply G3; [|exact R5].
       apply K2; [exact R2|exact R3|]. unfold dirdict. destruct (assoc rel ed) as [dd|] eqn:Ea; [|reflexivity].
       apply R4. apply DSUB. reflexivity.
@@ -316,7 +329,7 @@ Section Whole.
     exists ed, get_file_entry_dict L decompress pgp_verify w l path None true = Ok (l', ed) /\
       let c := mk_vctx (l_top l') (l_dev l') pol lm in
       (forall dir dd n e, In (dir, dd) ed -> In (n, e) dd -> presented L w c path (pjoin dir n) (Some e) log) /\
-      (forall dp rel, reach w ed (pjoin rootdir path) path dp rel -> files_presented L w c path ed dp rel log).
+      (forall dp rel, reach w ed (pjoin rootdir path) path dp rel -> files_presented L w c ed dp rel log).
   Proof.
     unfold assert_directory_verifies.
     destruct (get_file_entry_dict L decompress pgp_verify w l path None true) as [[l1 ed]|]; cbn [bind]; [|discriminate].
@@ -336,9 +349,10 @@ Section Whole.
       - cbn [fold_left bind] in H. cbv zeta in H.
         destruct (verify_one L w c (pjoin rootdir (pjoin d (fst fe))) (pjoin d (fst fe)) (Some (snd fe)) l0) as [[b0 l0']|] eqn:E; cbn [bind] in H.
         2:{ exfalso. rewrite fold_err_stays' in H by reflexivity. discriminate. }
-        destruct (verify_one_presented L w c path _ _ _ _ _ _ (or_intror eq_refl) E) as [P1 P2].
+        destruct (verify_one_presented L w c _ _ _ _ _ _ E) as [P1 P2].
         destruct (IHf _ _ _ _ H) as [Q1 Q2]. split; [eapply pre_trans; eassumption|].
-        intros n e [Eq|Hin]; [subst fe; cbn [fst snd] in P2; eapply presented_mono; eassumption|apply Q2; exact Hin]. }
+        intros n e [Eq|Hin]; [subst fe; cbn [fst snd] in P2|apply Q2; exact Hin].
+        exists (pjoin rootdir (pjoin d n)). split; [right; reflexivity|eapply presented_at_mono; eassumption]. }
     assert (Outer : forall dds r0 l0 r1 l1',
       fold_left (fun (acc : res (bool * list call)) (dd : list N * list (list N * entry)) =>
         fold_left (fun (acc2 : res (bool * list call)) (fe : list N * entry) =>
@@ -362,8 +376,7 @@ Section Whole.
     - intros dir dd n e Hd Hn. destruct (proj2 W2 _ _ Hd) as [H1|H1].
       + apply (O2 _ _ H1). exact Hn.
       + eapply presented_mono; [exact O1|apply H1; exact Hn].
-    - intros dp rel Hr ents f A1 A2 A3. destruct (W3 _ _ Hr ents f A1 A2 A3) as [eo [B1 B2]].
-      exists eo. split; [eapply presented_mono; eassumption|exact B2].
+    - intros dp rel Hr. eapply files_presented_mono; [exact O1|apply W3; exact Hr].
   Qed.
 
   (* with the default handler (any mismatch raises) nothing is ever logged *)
@@ -451,14 +464,14 @@ Section Whole.
          exists dp diff, names_object path dp (pjoin dir n) /\ Verify.verify_path L w dp (Some e) (l_dev l') lm = Ok (true, diff)) /\
       (forall dp rel ents f, reach w ed (pjoin rootdir path) path dp rel -> p_scandir w dp = Ok ents ->
          In f (map fst (filter (fun x => negb (snd x)) ents)) -> visible (l_top l') rel f = true ->
-         exists fp eo diff, names_object path fp (pjoin rel f) /\ Verify.verify_path L w fp eo (l_dev l') lm = Ok (true, diff) /\
+         exists eo diff, Verify.verify_path L w (pjoin dp f) eo (l_dev l') lm = Ok (true, diff) /\
            (eo = None \/ exists e dd, eo = Some e /\ In (rel, dd) ed /\ In (f, e) dd)).
   Proof.
     intros H. destruct (directory_verification_complete _ _ _ _ _ _ _ _ H) as [ed [E1 [E2 E3]]].
     exists ed. split; [exact E1|split].
-    - intros dir dd n e Hd Hn. destruct (E2 _ _ _ _ Hd Hn) as [dp [ok [diff [N1 [N2 N3]]]]]. cbn [vc_dev vc_lm] in N2.
+    - intros dir dd n e Hd Hn. destruct (E2 _ _ _ _ Hd Hn) as [dp [N1 [ok [diff [N2 N3]]]]]. cbn [vc_dev vc_lm] in N2.
       exists dp, diff. split; [exact N1|]. destruct ok; [exact N2|destruct (N3 eq_refl)].
-    - intros dp rel ents f Hr Hs Hf Hv. destruct (E3 _ _ Hr ents f Hs Hf Hv) as [eo [[fp [ok [diff [N1 [N2 N3]]]]] B]].
-      cbn [vc_dev vc_lm] in N2. exists fp, eo, diff. split; [exact N1|split; [|exact B]]. destruct ok; [exact N2|destruct (N3 eq_refl)].
+    - intros dp rel ents f Hr Hs Hf Hv. destruct (proj2 (E3 _ _ Hr) ents f Hs Hf Hv) as [eo [[ok [diff [N2 N3]]] B]].
+      cbn [vc_dev vc_lm] in N2. exists eo, diff. split; [|exact B]. destruct ok; [exact N2|destruct (N3 eq_refl)].
   Qed.
 End Whole.
